@@ -20,6 +20,12 @@ pub enum Step {
     Sleep(u64),
     /// close and reopen a client connection (transaction state is dropped)
     Reconnect { conn: usize },
+    /// send a command without waiting for its reply (blocking commands)
+    Send { conn: usize, args: Cmd },
+    /// read the reply of the command sent earlier on this connection and judge it
+    Recv { conn: usize },
+    /// compare the canonical dump with the model now
+    Dump,
 }
 
 pub fn step2j(s: &Step) -> Value {
@@ -27,6 +33,9 @@ pub fn step2j(s: &Step) -> Value {
         Step::Cmd { conn, args } => json!({"conn": conn, "cmd": crate::driver::cmd2j(args)}),
         Step::Sleep(ms) => json!({"sleep_ms": ms}),
         Step::Reconnect { conn } => json!({"reconnect": conn}),
+        Step::Send { conn, args } => json!({"conn": conn, "send": crate::driver::cmd2j(args)}),
+        Step::Recv { conn } => json!({"recv": conn}),
+        Step::Dump => json!({"dump": true}),
     }
 }
 
@@ -37,7 +46,16 @@ pub fn j2step(v: &Value) -> Option<Step> {
     if let Some(c) = v.get("reconnect").and_then(|x| x.as_u64()) {
         return Some(Step::Reconnect { conn: c as usize });
     }
+    if let Some(c) = v.get("recv").and_then(|x| x.as_u64()) {
+        return Some(Step::Recv { conn: c as usize });
+    }
+    if v.get("dump").is_some() {
+        return Some(Step::Dump);
+    }
     let conn = v.get("conn").and_then(|x| x.as_u64()).unwrap_or(0) as usize;
+    if let Some(sv) = v.get("send") {
+        return Some(Step::Send { conn, args: crate::driver::j2cmd(sv) });
+    }
     let args = crate::driver::j2cmd(v.get("cmd")?);
     Some(Step::Cmd { conn, args })
 }
@@ -92,9 +110,16 @@ pub struct RunOpts<'a> {
     pub dump_after_error: bool,
     pub active: &'a Active,
     pub excluder: Excluder<'a>,
+    pub excluder_fn: fn(&Active, &mut World, usize, &Cmd) -> Option<&'static str>,
     /// decides non-triviality from the labels and the number of mutations
     pub nontrivial: &'a (dyn Fn(&World) -> bool + Sync),
     pub reply_timeout: Duration,
+    /// commands issued through the wrapper script are applied with lenient reply checking
+    pub lenient_scripts: bool,
+    /// compare the dump at the end of the history
+    pub final_dump: bool,
+    /// use a fresh server for this case when it contains blocking commands
+    pub fresh_server_if_blocking: bool,
 }
 
 fn short_reply(r: &Reply) -> String {
@@ -152,6 +177,14 @@ pub fn run_script(wk: &mut Worker, steps: &[Step], o: &RunOpts) -> CaseResult {
     let _ = port;
     let mut world = World::new(o.nconns);
     world.timed = o.timed;
+    world.lenient_scripts = o.lenient_scripts;
+    {
+        let active = o.active.clone();
+        let exf = o.excluder_fn;
+        world.slot_excluder = Some(std::sync::Arc::new(move |w: &mut World, conn: usize, c: &Cmd| exf(&active, w, conn, c).is_some()));
+    }
+    let mut pending: Vec<Option<(Cmd, Instant)>> = (0..o.nconns).map(|_| None).collect();
+    let mut used_blocking = false;
     let t0 = Instant::now();
     let mut excluded: BTreeMap<String, u64> = BTreeMap::new();
     let mut trace: Vec<Value> = Vec::new();
@@ -180,9 +213,57 @@ pub fn run_script(wk: &mut Worker, steps: &[Step], o: &RunOpts) -> CaseResult {
                 world.label("reconnect");
                 trace.push(json!({"reconnect": conn}));
             }
+            Step::Dump => {
+                if world.uncertain {
+                    continue;
+                }
+                world.label("mid-dump");
+                if let Some(d) = compare_dump(&mut obs, &mut world, &o.dump_dbs) {
+                    match d {
+                        Ok(diff) => fail = Some((format!("step {}: dataset differs from the model: {}", si, diff), "mid-dump".to_string())),
+                        Err(e) => fail = Some((format!("step {}: dump failed: {}", si, e), "mid-dump-failed".to_string())),
+                    }
+                    break 'steps;
+                }
+            }
+            Step::Send { conn, args } => {
+                let conn = *conn % o.nconns;
+                if args.is_empty() || pending[conn].is_some() {
+                    continue;
+                }
+                if let Some(fid) = (o.excluder)(o.active, &mut world, conn, args) {
+                    *excluded.entry(fid.to_string()).or_insert(0) += 1;
+                    continue;
+                }
+                used_blocking = true;
+                let _ = conns[conn].send_cmd(args);
+                pending[conn] = Some((args.clone(), Instant::now()));
+                trace.push(json!({"conn": conn, "send": short_cmd(args)}));
+                // let the server process it before the next step
+                std::thread::sleep(Duration::from_millis(15));
+            }
+            Step::Recv { conn } => {
+                let conn = *conn % o.nconns;
+                let (args, t_send) = match pending[conn].take() {
+                    Some(p) => p,
+                    None => continue,
+                };
+                let reply = conns[conn].reply();
+                let t_recv = Instant::now();
+                let tm = Tm { send: ms(t_send), recv: ms(t_recv) };
+                trace.push(json!({"conn": conn, "recv_for": short_cmd(&args), "reply": short_reply(&reply)}));
+                match world.exec(conn, &args, &reply, tm) {
+                    Ok(_) => {}
+                    Err(m) => {
+                        let name = crate::model::upper(&args[0]);
+                        fail = Some((format!("step {}: {} (sent earlier) -> got {}, expected {}", si, short_cmd(&args), m.got, m.expected), format!("{}:{}", name, m.kind)));
+                        break 'steps;
+                    }
+                }
+            }
             Step::Cmd { conn, args } => {
                 let conn = *conn % o.nconns;
-                if args.is_empty() {
+                if args.is_empty() || pending[conn].is_some() {
                     continue;
                 }
                 if let Some(fid) = (o.excluder)(o.active, &mut world, conn, args) {
@@ -228,7 +309,7 @@ pub fn run_script(wk: &mut Worker, steps: &[Step], o: &RunOpts) -> CaseResult {
                         break 'steps;
                     }
                 }
-                if was_error && o.dump_after_error {
+                if was_error && o.dump_after_error && !world.uncertain {
                     world.label("refused-then-dump");
                     if let Some(d) = compare_dump(&mut obs, &mut world, &o.dump_dbs) {
                         let name = crate::model::upper(&args[0]);
@@ -246,7 +327,7 @@ pub fn run_script(wk: &mut Worker, steps: &[Step], o: &RunOpts) -> CaseResult {
             }
         }
     }
-    if fail.is_none() && !ambiguous_end {
+    if fail.is_none() && !ambiguous_end && o.final_dump && !world.uncertain && pending.iter().all(|p| p.is_none()) {
         if let Some(d) = compare_dump(&mut obs, &mut world, &o.dump_dbs) {
             match d {
                 Ok(diff) => fail = Some((format!("final dataset differs: {}", diff), "final-dump".to_string())),
@@ -258,6 +339,10 @@ pub fn run_script(wk: &mut Worker, steps: &[Step], o: &RunOpts) -> CaseResult {
         if !s.alive() {
             wk.server = None;
         }
+    }
+    if (used_blocking && o.fresh_server_if_blocking) || pending.iter().any(|p| p.is_some()) {
+        // a blocked client may leave a registration behind: do not reuse this server
+        wk.server = None;
     }
     wk.cases_on_server += 1;
     let nontrivial = (o.nontrivial)(&world);
